@@ -5,20 +5,25 @@ from .dataflow import local_uses
 ACQUIRE = {"RwLock::read": "read", "RwLock::write": "write", "Mutex::lock": "write",
            "RwLock::try_read": "read", "RwLock::try_write": "write"}
 GUARD_TYPES = ("std::sync::RwLockReadGuard<", "std::sync::RwLockWriteGuard<", "std::sync::MutexGuard<")
+ASYNC_GUARD_TYPES = {"read": ("async_std::sync::RwLockReadGuard<", "async_lock::rwlock::RwLockReadGuard<", "async_lock::RwLockReadGuard<"),
+                     "write": ("async_std::sync::RwLockWriteGuard<", "async_lock::rwlock::RwLockWriteGuard<", "async_lock::RwLockWriteGuard<",
+                               "async_std::sync::MutexGuard<", "async_lock::mutex::MutexGuard<", "async_lock::MutexGuard<")}
+ASYNC_LOCK_PREFIXES = ("async_std::sync::", "async_lock::")
 
 
 class Acquisition:
-    __slots__ = ("body", "bb", "mode", "lock_term", "guard_local", "start", "region", "drops", "line", "escapes")
+    __slots__ = ("body", "bb", "mode", "lock_term", "guard_local", "start", "region", "drops", "line", "escapes", "is_async")
 
     def __init__(self):
         self.escapes = False
+        self.is_async = False
 
     def describe(self):
         return "%s-lock at %s" % (self.mode, self.line)
 
 
 def is_guard_ty(ty):
-    return ty.startswith(GUARD_TYPES)
+    return ty.startswith(GUARD_TYPES) or any(ty.startswith(v) for v in ASYNC_GUARD_TYPES.values())
 
 
 class LockInfo:
@@ -38,6 +43,9 @@ class LockInfo:
         for b in body.calls():
             t = b.term
             sh = short(t.callee()) if t.callee() else ""
+            if sh in ACQUIRE and t.callee().startswith(ASYNC_LOCK_PREFIXES):
+                self._find_async(b, ACQUIRE[sh])
+                continue
             if sh not in ACQUIRE or not t.callee().startswith("std::sync"):
                 continue
             a = Acquisition()
@@ -110,6 +118,63 @@ class LockInfo:
                     a.escapes = True
             self.acqs.append(a)
 
+    def _find_async(self, b, mode):
+        """`lock.read().await` / `block_on(lock.write())` / `try_write()`: the guard reaches its holder through the await
+        expansion (IntoFuture, poll, Poll::Ready payload) or a combinator, so the holder is found by type — the guard-typed
+        local that is never moved out of — and paired with the nearest dominating acquisition of its mode."""
+        body = self.body
+        t = b.term
+        a = Acquisition()
+        a.body = body
+        a.bb = b.idx
+        a.mode = mode
+        a.line = t.line
+        a.lock_term = strip(self.tr.operand(t.args[0])) if t.args else ("unknown",)
+        a.drops = []
+        a.region = set()
+        a.guard_local = None
+        a.start = None
+        a.is_async = True
+        uses = local_uses(body)
+        holders = []
+        for l in range(len(body.locals)):
+            ty = body.local_ty(l)
+            if not ty.startswith(ASYNC_GUARD_TYPES[mode]):
+                continue
+            if any(how == "move" for (_, _, how) in uses.get(l, [])):
+                continue
+            defs = [(body.blocks[bb].term.target if kind == "call" and body.blocks[bb].term.target is not None else bb)
+                    for kind, bb, idx in self.tr.defs.get(l, [])]
+            for d in defs:
+                if b.idx in self.cfg.dominating_blocks(d) or d == b.idx:
+                    holders.append((l, d))
+        # nearest: the holder whose definition is dominated by this acquisition and by no later acquisition of the same mode
+        later = [x.idx for x in body.calls() if x.idx != b.idx and x.term.callee() and short(x.term.callee()) in ACQUIRE and
+                 ACQUIRE[short(x.term.callee())] == mode and x.term.callee().startswith(ASYNC_LOCK_PREFIXES) and
+                 b.idx in self.cfg.dominating_blocks(x.idx)]
+        holders = [(l, d) for (l, d) in holders if not any(x in self.cfg.dominating_blocks(d) for x in later)]
+        if not holders:
+            a.escapes = True
+            self.acqs.append(a)
+            return
+        gl, start = holders[0]
+        a.guard_local = gl
+        a.start = start
+        seen = set()
+        st = [start]
+        while st:
+            x = st.pop()
+            if x in seen:
+                continue
+            seen.add(x)
+            tt = body.blocks[x].term
+            if tt.kind == "drop" and tt.place.is_local() and tt.place.local == gl:
+                a.drops.append(x)
+                continue
+            st.extend(self.cfg.succ[x])
+        a.region = seen
+        self.acqs.append(a)
+
     def sites_in_region(self, a):
         """blocks in the region whose terminator is a call (excluding the drop blocks)"""
         return [x for x in a.region if self.body.blocks[x].term.kind == "call"]
@@ -140,6 +205,8 @@ class LockSummary:
             c = self.inter.local_callee(s)
             if c is None or c.id in _stack or c.id == body.id:
                 continue
+            if c.kind == "Closure" and c.coroutine:
+                continue  # polling a future: the call that created it is the event
             if self.acquires(c, _stack + (body.id,)):
                 out.append((s.bb, "call", c))
         return out
